@@ -24,7 +24,7 @@ def shards(tier):
 def floors(tier):
     return {"tables": 300, "symbols_decoded_alone": 10000, "strings_decoded": 5000, "tables_with_cap0": 50,
             "tables_with_cap>=9": 50, "tables_with_multidigit_charge": 50, "alphabet_after_switch": 300,
-            "noncanonical_key_rejected": 10, "passed_dict_mutated": 100, "decoded_atoms>=30": 50}
+            "noncanonical_key_rejected": 10, "passed_dict_mutated": 100, "rejected_updates": 300, "sets_without_alphabet_read": 500, "decoded_atoms>=30": 50}
 
 
 def model_alphabet(t):
@@ -136,10 +136,37 @@ def run(ctx):
                      sample={"table": table, "selfies": x[:200], "smiles": d[1][:200]} if len(x) > 30 else None)
         # switch the table; the alphabet must follow (and a rejected update must not change it)
         before = cache_probe()
-        t2 = tablegen.any_table(rng)
-        try:
-            sf.set_semantic_constraints(dict(t2))
-        except ValueError:
+        # a rejected update (valid, looser entries first) must leave table and alphabet as they are
+        bad, reason = tablegen.invalid_update(rng)
+        rj = call_guard(lambda: sf.set_semantic_constraints(bad))
+        if rj[0] == "ok":
+            ctx.finding("invalid-update-accepted", {"table": table, "update": repr(bad)}, reason)
+        else:
+            ctx.count("rejected_updates")
+            t_after = sf.get_semantic_constraints()
+            a_after = call_guard(sf.get_semantic_robust_alphabet)
+            if a_after[0] == "ok":
+                check_alphabet(ctx, set(a_after[1]), t_after, {"table": t_after, "after_rejected_update": repr(bad)})
+            x = "".join(rng.choice(AL) for _ in range(40))
+            d = call_guard(lambda: sf.decoder(x), expected=(sf.DecoderError,))
+            if d[0] == "ok":
+                status, mol, detail = judge_output(d[1], table)
+                if status not in ("ok", "f1", "budget"):
+                    ctx.finding("alphabet-string-%s-after-rejected-update" % status,
+                                {"selfies": x, "table": table, "update": repr(bad), "output": d[1][:500]}, detail)
+            elif d[0] == "err":
+                ctx.finding("decoder-rejects-alphabet-string", {"selfies": x, "table": table, "update": repr(bad)}, "after a rejected update")
+        # one to three accepted updates in a row WITHOUT reading the alphabet in between, then read it
+        t2 = None
+        for _ in range(rng.choice([1, 1, 2, 3])):
+            t2 = tablegen.any_table(rng) if rng.random() < 0.6 else tablegen.neighbour_table(rng, table)
+            try:
+                sf.set_semantic_constraints(dict(t2))
+                ctx.count("sets_without_alphabet_read")
+            except ValueError:
+                t2 = None
+                break
+        if t2 is None:
             continue
         table2 = sf.get_semantic_constraints()
         r2 = call_guard(sf.get_semantic_robust_alphabet)
